@@ -278,6 +278,18 @@ impl Calendar {
             (Some(ordinal), None) => self
                 .month_code_for_ordinal(era, year, ordinal)
                 .unwrap_or(resolved_fields.month_code),
+            // Both given: they must name the same month of that year.
+            (Some(ordinal), Some(code)) => {
+                let first = self
+                    .0
+                    .date_from_codes(era, year, IcuMonthCode(code.0), 1)
+                    .map_err(TemporalError::from_icu4x)?;
+                if self.0.month(&first).ordinal != ordinal {
+                    return Err(TemporalError::range()
+                        .with_message("Month and monthCode values could not be resolved."));
+                }
+                code
+            }
             _ => resolved_fields.month_code,
         };
         Ok((era, year, IcuMonthCode(month_code.0)))
